@@ -85,6 +85,25 @@ def make_cfg(seed, i):
             cfg["persistent"] = [1, gen.pick(rng, ["nan", "nan_all"])]
     if fam == 3:
         up["model.abs_tol"] = 1e6           # exit at x0
+    g2 = np.random.default_rng([int(seed), NUM, int(i), 4])
+    if fam in (3, 4) and g2.random() < 0.5 and not cfg["prob"].get("noise") and not cfg.get("faults") and not cfg.get("persistent"):
+        # what the residual function returns is not a float64 array (single precision / integer array / list of ints): every array of
+        # the result must still be float64 before and after the round trip, also when the run stops at x0
+        cfg["_ret_dtype"] = gen.pick(g2, ["float32", "int", "intlist"])
+    if cfg.get("nsamples") and g2.random() < 0.7:
+        # budgets that expire between the samples of a point, in whatever step is being taken
+        cfg["args"]["maxfun"] = int(g2.integers(1, 70))
+    if i % 12 == 5 and cfg["prob"]["n"] >= 2 and not cfg.get("proj") and not cfg.get("reg"):
+        # extra regression steps of both kinds under averaging with odd budgets (each step method has its own early-exit save)
+        n_ = cfg["prob"]["n"]
+        cfg["args"]["npt"] = int(n_ + 2 + g2.integers(0, n_))
+        up["regression.num_extra_steps"] = int(g2.integers(1, 4))
+        up["regression.momentum_extra_steps"] = bool(g2.random() < 0.6)
+        for k_ in [k_ for k_ in up if k_.startswith("growing.") or k_.startswith("restarts.")]:
+            up.pop(k_)
+        cfg["nsamples"] = dict(kind="const", v=int(g2.integers(2, 4)))
+        cfg["args"]["maxfun"] = int(g2.integers(2 * n_ + 6, 70))
+        cfg["args"].pop("objfun_has_noise", None)
     if r() < 0.45 and not cfg.get("reg"):
         up["logging.save_diagnostic_info"] = True
         up["logging.save_poisedness"] = bool(r() < 0.15)
@@ -177,7 +196,7 @@ def round_trip(s, viol, st, label, cfg=None):
         if not nan_eq(a, b):
             add("field-differs", "field %s not reproduced: %s -> %s" % (f, engine.short(np.asarray(a)) if a is not None else None,
                                                                          engine.short(np.asarray(b)) if b is not None else None), field=f)
-        elif a is not None and np.asarray(a).dtype.kind != np.asarray(b).dtype.kind:
+        elif a is not None and np.asarray(a).dtype != np.asarray(b).dtype:
             add("field-dtype-differs", "field %s: dtype %s -> %s" % (f, np.asarray(a).dtype, np.asarray(b).dtype), field=f)
     for f in ("nf", "nx", "nruns", "flag", "msg", "xmin_eval_num"):
         a, b = getattr(s, f), getattr(s2, f)
@@ -237,7 +256,7 @@ def features(s):
     with np.errstate(all="ignore"):
         if s.resid is not None and np.isnan(np.asarray(s.resid, dtype=float)).any() or (isinstance(s.obj, float) and math.isnan(s.obj)):
             f.append("nan")
-    if s.resid is not None and len(s.resid) >= 100:
+    if s.resid is not None and np.size(s.resid) >= 100:
         f.append("m>=100")
     if s.jacobian is not None and np.size(s.jacobian) >= 200:
         f.append("jac>=200")
@@ -288,7 +307,7 @@ def run_case(case):
         st["synthetic_results"] = 1
         res["nontrivial"].append("syn|%d" % case["i"])
         if case["i"] % 100 == 0:
-            res["sample"] = dict(kind="synthetic", flag=s.flag, n=len(s.x), m=len(s.resid), jacobian=(None if s.jacobian is None else list(s.jacobian.shape)),
+            res["sample"] = dict(kind="synthetic", flag=s.flag, n=int(np.size(s.x)), m=int(np.size(s.resid)), jacobian=(None if s.jacobian is None else list(s.jacobian.shape)),
                                  nan_in_resid=bool(np.isnan(s.resid).any()))
         return res
     cfg = case.get("cfg") or make_cfg(case["seed"], case["i"])
